@@ -28,6 +28,59 @@ BASE = 'spatialpandas.geometry.base'
 ALLOWED_RAW = {'_ListArrayBufferMixin.buffer_values', '_ListArrayBufferMixin.buffer_offsets', 'GeometryFixedArray.flat_values', 'GeometryArray.nbytes', '_extract_isnull_bytemap'}
 
 
+def _depends_on_offset(f, expr, seen=None):
+    """Does the value of `expr` depend on an `.offset` attribute (directly or through local definitions)?"""
+    seen = seen if seen is not None else set()
+    for x in ast.walk(expr):
+        if isinstance(x, ast.Attribute) and x.attr == 'offset':
+            return True
+        if isinstance(x, ast.Name) and x.id not in seen:
+            seen.add(x.id)
+            for a in astq.assignments(f, x.id):
+                v = a[1]
+                v = v.value if isinstance(v, (ast.AugAssign,)) else v
+                if isinstance(v, ast.AST) and not isinstance(v, (ast.For, ast.comprehension)) and _depends_on_offset(f, v, seen):
+                    return True
+    return False
+
+
+def _bitmap_unpack_rule(P, R, ex):
+    """Vectorised form of the validity-bitmap read: np.unpackbits over the bytes that hold bits [offset, offset + n).
+    Necessary conditions decided: LSB-first bit order; the unpacked bits are cut at the intra-byte shift; the number of
+    bytes consumed depends on that shift (bits [s, s+n) span ceil((s+n)/8) bytes, not ceil(n/8))."""
+    ups = [c for c in astq.own_calls(ex) if norm(c.func).split('.')[-1] == 'unpackbits']
+    if not ups:
+        raise AnalysisError('spatialpandas.geometry.base:_extract_isnull_bytemap reads the validity bitmap by an idiom the analysis does not model (anchor vanished)')
+    for c in ups:
+        bo = astq.arg_of(c, kw='bitorder')
+        R.check(bo is not None and astq.const_str(bo) == 'little', 'C16.a', ex, c, 'Arrow validity bitmaps are unpacked least-significant bit first',
+                'np.unpackbits without bitorder="little": Arrow bitmaps are LSB-first, elements are matched with the wrong bits', construct='unpackbits bit order')
+        src = c.args[0] if c.args else None
+        if isinstance(src, ast.Name):
+            t_ = astq.trace(ex, src)
+            src = t_ if isinstance(t_, ast.AST) else src
+        if isinstance(src, ast.Subscript) and isinstance(src.slice, ast.Slice) and src.slice.upper is not None:
+            lo, up = src.slice.lower, src.slice.upper
+            ext = up
+            if lo is not None and isinstance(up, ast.BinOp) and isinstance(up.op, ast.Add):
+                if norm(up.left) == norm(lo):
+                    ext = up.right
+                elif norm(up.right) == norm(lo):
+                    ext = up.left
+            cnt = astq.arg_of(c, kw='count')
+            dep = _depends_on_offset(ex, ext)
+            R.check(dep, 'C16.a', ex, src, 'the number of bitmap bytes unpacked accounts for the intra-byte bit offset of the slice',
+                    f'the bitmap bytes unpacked span `{norm(ext)}`, which does not depend on the array offset: bits [offset % 8, offset % 8 + n) can reach one byte further than ceil(n / 8); '
+                    'the last elements of a slice that does not start on a byte boundary read padding and are reported missing', construct='bitmap byte window')
+        else:
+            R.ok('C16.a', ex, c, 'the bitmap is unpacked to its end (no upper byte bound to get wrong)', construct='bitmap byte window')
+        # the bits must be cut at the shift
+        cuts = [x for x in walk_own(ex.node) if isinstance(x, ast.Subscript) and isinstance(x.slice, ast.Slice) and x.slice.lower is not None
+                and (x.value is c or (isinstance(x.value, ast.Name) and any(a[0] == 'expr' and a[1] is c for a in astq.assignments(ex, x.value.id))))]
+        R.check(bool(cuts) and all(_depends_on_offset(ex, x.slice.lower) for x in cuts), 'C16.a', ex, c, 'the unpacked bits are read starting at the array offset',
+                'the unpacked bits are not cut at the array offset: a sliced array reads the validity of other elements', construct='bitmap bit offset')
+
+
 def run(P, R, tier):
     R.assume('S1: array.offset / len(array) describe the logical window of level 0 only; child buffers are never cut')
     # ---------------------------------------------------------------- C16.a who reads raw buffers
@@ -88,26 +141,29 @@ def run(P, R, tier):
                   construct='GeometryFixedArray.flat_values window')
     # validity bitmap
     ex = P.func(BASE, '_extract_isnull_bytemap')
-    kern = P.func(BASE, '_perform_extract_isnull_bytemap')
-    okb = False
-    for c in astq.own_calls(ex):
-        if astq.is_call_to(P, ex, c, kern):
-            a_ = [norm(x) for x in c.args]
-            p_ = ex.params[0]
-            chunk = astq.trace(ex, c.args[1].args[0]) if isinstance(c.args[1], ast.Call) and c.args[1].args else None
-            okb = len(a_) >= 3 and a_[1].startswith('len(') and a_[2].endswith('.offset') and a_[1][4:-1] == a_[2][:-7]
-    R.check(okb, 'C16.a', ex, None, 'the validity bitmap is read for len(array) bits starting at bit array.offset', 'the validity bitmap is not read with (len(array), array.offset)',
-            construct='_perform_extract_isnull_bytemap(buf, len(chunk), chunk.offset, ...)')
-    src = norm(kern.node)
-    kp = kern.params
-    idx_def = [s for s in walk_own(kern.node) if isinstance(s, ast.Assign) and isinstance(s.value, ast.BinOp) and isinstance(s.value.op, ast.Add)
-               and kp[2] in astq.names_in(s.value)]
-    okk = False
-    if idx_def:
-        nm = idx_def[0].targets[0].id
-        okk = f'{nm} // 8' in src and f'{nm} % 8' in src and all((n_.id == nm) for b in ast.walk(kern.node) if isinstance(b, ast.BinOp) and isinstance(b.op, (ast.FloorDiv, ast.Mod))
-                                                                  and norm(b.right) == '8' for n_ in [b.left] if isinstance(n_, ast.Name))
-    R.check(okk, 'C16.a', kern, idx_def[0] if idx_def else None, 'byte and bit position are both taken from (bitmap_offset + i)', 'byte/bit position do not both include the bitmap offset')
+    kern = P.mods[BASE].funcs.get('_perform_extract_isnull_bytemap') if BASE in P.mods else None
+    if kern is not None:
+        okb = False
+        for c in astq.own_calls(ex):
+            if astq.is_call_to(P, ex, c, kern):
+                a_ = [norm(x) for x in c.args]
+                p_ = ex.params[0]
+                chunk = astq.trace(ex, c.args[1].args[0]) if isinstance(c.args[1], ast.Call) and c.args[1].args else None
+                okb = len(a_) >= 3 and a_[1].startswith('len(') and a_[2].endswith('.offset') and a_[1][4:-1] == a_[2][:-7]
+        R.check(okb, 'C16.a', ex, None, 'the validity bitmap is read for len(array) bits starting at bit array.offset', 'the validity bitmap is not read with (len(array), array.offset)',
+                construct='_perform_extract_isnull_bytemap(buf, len(chunk), chunk.offset, ...)')
+        src = norm(kern.node)
+        kp = kern.params
+        idx_def = [s for s in walk_own(kern.node) if isinstance(s, ast.Assign) and isinstance(s.value, ast.BinOp) and isinstance(s.value.op, ast.Add)
+                   and kp[2] in astq.names_in(s.value)]
+        okk = False
+        if idx_def:
+            nm = idx_def[0].targets[0].id
+            okk = f'{nm} // 8' in src and f'{nm} % 8' in src and all((n_.id == nm) for b in ast.walk(kern.node) if isinstance(b, ast.BinOp) and isinstance(b.op, (ast.FloorDiv, ast.Mod))
+                                                                      and norm(b.right) == '8' for n_ in [b.left] if isinstance(n_, ast.Name))
+        R.check(okk, 'C16.a', kern, idx_def[0] if idx_def else None, 'byte and bit position are both taken from (bitmap_offset + i)', 'byte/bit position do not both include the bitmap offset')
+    else:
+        _bitmap_unpack_rule(P, R, ex)
     # ---------------------------------------------------------------- C16.b all public entries typed (pairing at kernel call sites)
     n_entries = 0
     for mod, cls, L in geom.ARRAYS:
